@@ -489,6 +489,8 @@ func (vc *VC) mapKind(m *types.Map) *Kind {
 // heapNames returns the SMT-level heap variables of a kind with their sorts.
 func (vc *VC) heapVars(k *Kind) (names []string, sorts []string) {
 	switch k.Tag {
+	case "global":
+		return []string{k.Name}, []string{vc.sortOf(k.T)}
 	case "field":
 		return []string{k.Name}, []string{arraySort("Int", vc.sortOf(k.FType))}
 	case "slice":
